@@ -521,3 +521,26 @@ impl<'dbg> DqeExecutor<'dbg> {
         }
     }
 }
+
+#[cfg(feature = "verif")]
+impl<'dbg> DqeExecutor<'dbg> {
+    /// Verification hook: (unit index, offset in unit) of the DIEs a variable / argument selector resolves to
+    /// at the current exploration context, in the order the executor produces them.
+    pub fn verif_selected_dies(
+        &self,
+        selector: &Selector,
+        on_args: bool,
+    ) -> Result<Vec<(usize, usize)>, Error> {
+        Ok(if on_args {
+            self.param_die_by_selector(selector)?
+                .iter()
+                .map(|d| (d.unit().idx(), d.verif_die_offset()))
+                .collect()
+        } else {
+            self.variable_die_by_selector(selector)?
+                .iter()
+                .map(|d| (d.unit().idx(), d.verif_die_offset()))
+                .collect()
+        })
+    }
+}
